@@ -3,6 +3,7 @@
 package verifrt
 
 import (
+	"context"
 	"database/sql"
 	"errors"
 )
@@ -26,6 +27,15 @@ type DBState struct {
 	InUse   int // connections held by open transactions / row sets
 	MaxOpen int // 0 = unlimited
 	OpenTx  int
+	// Sess is the transaction state that plain BEGIN / SAVEPOINT statements leave on THE pooled
+	// connection (modelled for a pool of exactly one connection): it survives the connection's
+	// return to the pool, and every later statement on that connection runs inside it.
+	Sess *sessState
+}
+
+type sessState struct {
+	staged []dbOp
+	marks  []int // length of staged at each open savepoint; a plain BEGIN has none
 }
 
 type txState struct {
@@ -103,6 +113,7 @@ func Restart(db *sql.DB) {
 	s := DB(db)
 	s.InUse = 0
 	s.OpenTx = 0
+	s.Sess = nil // an uncommitted session transaction dies with the process
 	for _, t := range txs {
 		if t.db == db {
 			t.done = true
@@ -156,6 +167,12 @@ func DBBegin(db *sql.DB) (*sql.Tx, error) {
 		release(s)
 		boundary()
 		return nil, errDB
+	}
+	if s.Sess != nil {
+		// the pooled connection is still inside a transaction somebody left open
+		release(s)
+		boundary()
+		return nil, errDB // SQLite: cannot start a transaction within a transaction
 	}
 	tx := &sql.Tx{}
 	txs[tx] = &txState{db: db}
@@ -366,7 +383,7 @@ func DBQueryRow(db *sql.DB, query string, args ...any) *sql.Row {
 	s := DB(db)
 	boundary()
 	acquire(s)
-	r := queryRow(s, nil, query, args)
+	r := queryRow(s, sessView(s), query, args)
 	release(s)
 	Log(Ev{K: "db.query"})
 	boundary()
@@ -430,8 +447,88 @@ func bindValue(a any) []byte {
 	return nil
 }
 
+// sessionControl executes SAVEPOINT / RELEASE / ROLLBACK TO / BEGIN / COMMIT / ROLLBACK written
+// as plain statements on the pooled connection.
+func sessionControl(s *DBState, op int) (int64, error) {
+	if s.MaxOpen != 1 {
+		Unsupported("plain transaction-control statements with a pool other than one connection")
+	}
+	switch op {
+	case 6: // SAVEPOINT: opens a transaction if none is open
+		if s.Sess == nil {
+			s.Sess = &sessState{}
+		}
+		s.Sess.marks = append(s.Sess.marks, len(s.Sess.staged))
+	case 7: // RELEASE: the outermost one commits
+		if s.Sess == nil || len(s.Sess.marks) == 0 {
+			return 0, errDB // no such savepoint
+		}
+		s.Sess.marks = s.Sess.marks[:len(s.Sess.marks)-1]
+		if len(s.Sess.marks) == 0 {
+			commitOps(s, s.Sess.staged)
+			s.Sess = nil
+			Log(Ev{K: "db.commit"})
+		}
+	case 8: // ROLLBACK TO: undoes back to the savepoint; the savepoint and the transaction stay
+		if s.Sess == nil || len(s.Sess.marks) == 0 {
+			return 0, errDB
+		}
+		s.Sess.staged = s.Sess.staged[:s.Sess.marks[len(s.Sess.marks)-1]]
+	case 9: // BEGIN
+		if s.Sess != nil {
+			return 0, errDB
+		}
+		s.Sess = &sessState{}
+	case 10: // COMMIT
+		if s.Sess == nil {
+			return 0, errDB
+		}
+		commitOps(s, s.Sess.staged)
+		s.Sess = nil
+		Log(Ev{K: "db.commit"})
+	case 11: // ROLLBACK
+		if s.Sess == nil {
+			return 0, errDB
+		}
+		s.Sess = nil
+	}
+	return 0, nil
+}
+
+func commitOps(s *DBState, ops []dbOp) {
+	for _, op := range ops {
+		if op.del {
+			delete(s.Table, op.key)
+		} else {
+			s.Table[op.key] = op.row
+		}
+	}
+}
+
+// sessStaged is where a statement outside a database/sql transaction stages its writes: the
+// session transaction if one is open on the connection, else nowhere (auto-commit).
+func sessStaged(s *DBState) *[]dbOp {
+	if s.Sess != nil {
+		return &s.Sess.staged
+	}
+	return nil
+}
+
+func sessView(s *DBState) []dbOp {
+	if s.Sess != nil {
+		return s.Sess.staged
+	}
+	return nil
+}
+
 func execStmt(s *DBState, staged *[]dbOp, query string, args []any) (int64, error) {
 	op, conflict, cols, lits, conds := SQLParse(query)
+	if op >= 6 {
+		if staged != nil && staged != sessStaged(s) {
+			Unsupported("plain transaction-control statement inside a database/sql transaction")
+		}
+		return sessionControl(s, op)
+	}
 	var cur []dbOp
 	if staged != nil {
 		cur = *staged
@@ -584,7 +681,7 @@ func DBExec(db *sql.DB, query string, args ...any) (sql.Result, error) {
 		boundary()
 		return nil, errDB
 	}
-	n, err := execStmt(s, nil, query, args)
+	n, err := execStmt(s, sessStaged(s), query, args)
 	release(s)
 	Log(Ev{K: "db.exec"})
 	boundary()
@@ -611,13 +708,7 @@ func TxCommit(tx *sql.Tx) error {
 		return errDB
 	}
 	// the atomic commit point
-	for _, op := range t.staged {
-		if op.del {
-			delete(s.Table, op.key)
-		} else {
-			s.Table[op.key] = op.row
-		}
-	}
+	commitOps(s, t.staged)
 	t.staged = nil
 	Log(Ev{K: "db.commit"})
 	release(s)
@@ -665,7 +756,7 @@ func DBQuery(db *sql.DB, query string, args ...any) (*sql.Rows, error) {
 		boundary()
 		return nil, errDB
 	}
-	st, ok := rowsFor(s, nil, query, args)
+	st, ok := rowsFor(s, sessView(s), query, args)
 	if !ok {
 		release(s)
 		boundary()
@@ -757,3 +848,69 @@ func DBSetMaxIdleConns(db *sql.DB, n int) {}
 
 //wsym:replace (*database/sql.DB).Close
 func DBClose(db *sql.DB) error { return nil }
+
+// ---- a pinned pool connection ----
+
+var conns = map[*sql.Conn]*sql.DB{}
+var connClosed = map[*sql.Conn]bool{}
+
+//wsym:replace (*database/sql.DB).Conn
+func DBConn(db *sql.DB, ctx context.Context) (*sql.Conn, error) {
+	s := DB(db)
+	boundary()
+	acquire(s)
+	if fault("conn") {
+		release(s)
+		boundary()
+		return nil, errDB
+	}
+	c := &sql.Conn{}
+	conns[c] = db
+	boundary()
+	return c, nil
+}
+
+//wsym:replace (*database/sql.Conn).Close
+func ConnClose(c *sql.Conn) error {
+	if connClosed[c] {
+		return sql.ErrConnDone
+	}
+	connClosed[c] = true
+	release(DB(conns[c])) // the connection goes back to the pool as it is (session state included)
+	return nil
+}
+
+//wsym:replace (*database/sql.Conn).ExecContext
+func ConnExecContext(c *sql.Conn, ctx context.Context, query string, args ...any) (sql.Result, error) {
+	if connClosed[c] {
+		return nil, sql.ErrConnDone
+	}
+	s := DB(conns[c])
+	boundary()
+	if fault("exec") {
+		boundary()
+		return nil, errDB
+	}
+	n, err := execStmt(s, sessStaged(s), query, args)
+	Log(Ev{K: "db.conn.exec"})
+	boundary()
+	if err != nil {
+		return nil, err
+	}
+	return &SQLResult{N: n}, nil
+}
+
+//wsym:replace (*database/sql.Conn).QueryRowContext
+func ConnQueryRowContext(c *sql.Conn, ctx context.Context, query string, args ...any) *sql.Row {
+	s := DB(conns[c])
+	boundary()
+	var r *sql.Row
+	if connClosed[c] {
+		r = &sql.Row{}
+		rowSts[r] = &rowState{err: sql.ErrConnDone}
+	} else {
+		r = queryRow(s, sessView(s), query, args)
+	}
+	boundary()
+	return r
+}
